@@ -257,10 +257,16 @@ func runMath(seed int64, n int, dir string) {
 				}
 			case "tickLog": // scaled by 1/log2(1.0001) ~ 6932; constant given to 33 digits => relative 1e-29
 				want := new(big.Float).SetPrec(refPrec).Quo(l2, log2Ref(bfRat(big.NewInt(10001), big.NewInt(10000))))
-				t := new(big.Float).SetPrec(refPrec).Mul(tol, bf(6932))
-				t.Add(t, new(big.Float).Mul(new(big.Float).Abs(want), tolPow10(28)))
+				// the property's bound: 1e-32 scaled by the base change, nothing else
+				strict := new(big.Float).SetPrec(refPrec).Mul(tol, bf(6932))
+				// what the 33-significant-digit constant tickLogOf2 can cost on top (relative 2e-33 of the result)
+				t := new(big.Float).SetPrec(refPrec).Add(strict, new(big.Float).Mul(new(big.Float).Abs(want), tolPow10(28)))
 				if !absErrLE(got, want, t) {
 					o.Fail("tickLog:abs-error", line+" got "+r.String())
+				} else if !absErrLE(got, want, strict) {
+					// genuine deviation from the stated bound, explained by the constant's precision (Props/C13Log
+					// tickLog_scaled_bound_witness): a keyed known finding, not tolerated silently
+					o.Fail("tickLog:abs-error:within-constant-precision", line+" got "+r.String())
 				}
 			default:
 				lb := log2Ref(bigFloatOfRaw(base, one36))
